@@ -17,6 +17,11 @@ def units():
               "cbmc_flags": ["--object-bits", "9", "--unwind", "40", "--memory-leak-check"], "timeout": 900,
               "kind": "bounded(strings of at most 7 characters; histories of 3 set calls; types, strings, capability flags symbolic)",
               "trusted": ["CBMC heap model (realloc, memcpy, strlen)", "SF_STR_SOFTWARE excluded (the library appends its own name through snprintf)"]})
+    for ns in (1, 2, 3, 4):
+        for nd in (3, 8):
+            U.append({"name": "common.psf_strlcpy_crlf.src%d.dst%d" % (ns, nd), "props": ["C17", "C12"], "harness": "strlcpy_crlf.harness.c", "entry": "h_strlcpy_crlf", "dfcc": False,
+                      "function": "common.c:psf_strlcpy_crlf", "timeout": 600, "cbmc_flags": ["--object-bits", "9", "--unwind", "12"], "defines": ["-DNSRC=%d" % ns, "-DNDST=%d" % nd],
+                      "kind": "bounded(source %d bytes, destination %d bytes, exactly sized; contents symbolic)" % (ns, nd), "trusted": []})
     return U
 
 
